@@ -56,7 +56,7 @@ def run(ctx, default_to, suppress, locale_keys=("b", "c"), default_keys=("a", "b
         log.append(("warn", w[1], dict(w[3]).get("locale") if len(w) > 3 else None))
         return UNIT
     ev = AEval(inputs=[(r'^cfg!feature="suppress_key_warnings"$', B(suppress))], funcs={},
-               builtins={"entry": entry, "insert": insert, "or_insert": or_insert, "or_insert_with": lambda rv, a: or_insert(rv, [ev.apply(a[0], [])]),
+               builtins={"entry": entry, "insert": insert, "or_insert": or_insert, "or_insert_with": lambda rv, a: or_insert(rv, [ev.apply(a[0], [])] if rv[0] == "ctor" and rv[1] == "Vacant" else [None]),
                          "into_mut": into_mut, "get_mut": into_mut, "merge": merge, "emit_warning": emit,
                          "push_key": lambda rv, a: UNIT, "pop_key": lambda rv, a: UNIT})
     try:
